@@ -117,7 +117,9 @@ def check_pair(acc, sch, w, mod, tname, tags, va, vb, rng):
     for who, x, other in (('source', a, b), ('copy', b, a)):
         try:
             oother = observe(other, sch, tname)
-            changed = pyrt.mutate_in_place(x, sch, tname, rng, grow=True)
+            ops = rng.random() < 0.5
+            acc.count('mutations_starting_with_a_whole_array_operation' if ops else 'mutations_leaf_by_leaf')
+            changed = pyrt.mutate_in_place(x, sch, tname, rng, grow=True, array_ops=ops)
             now = observe(other, sch, tname)
         except Exception as e:  # noqa
             acc.violation(PROP, 'mutation-after-copy-raises:%s' % type(e).__name__,
@@ -178,14 +180,14 @@ def check_extend(acc, sch, w, mod, tname, tags, v, rng):
             acc.violation(PROP, 'extend-copy-differs', dict(wit, copied=C.jsonable(elems_dst)))
             continue
         for e in getattr(src, m.name):
-            pyrt.mutate_in_place(e, sch, m.type, rng)
+            pyrt.mutate_in_place(e, sch, m.type, rng, array_ops=rng.random() < 0.5)
         after = [pyrt.read(e, sch, m.type) for e in getattr(dst, m.name)]
         if after != elems_dst:
             acc.violation(PROP, 'aliasing:extend-shares-elements', dict(wit, after=C.jsonable(after)))
             continue
         snap = [pyrt.read(e, sch, m.type) for e in getattr(src, m.name)]
         for e in getattr(dst, m.name):
-            pyrt.mutate_in_place(e, sch, m.type, rng)
+            pyrt.mutate_in_place(e, sch, m.type, rng, array_ops=rng.random() < 0.5)
         if [pyrt.read(e, sch, m.type) for e in getattr(src, m.name)] != snap:
             acc.violation(PROP, 'aliasing:extend-shares-elements', dict(wit, direction='copy-to-source'))
             continue
